@@ -25,6 +25,12 @@ CHECKS = {
  "C08": dict(cat="fault_enumeration", tech="fault positions enumerated over the canonical trace; expected behaviour = Coq canonical semantics under the faulty environment (IO.v)",
    text="For each halting program with I/O the failing input request / refused output byte index is enumerated over its canonical trace (plus absent input, absent sink); all four backends must return normally with exactly the canonical events up to and including the failing operation.",
    note="Faults injected through Read/Write objects; LLVM backend not built.", ref="§4 C08"),
+ "C09": dict(cat="proof", tech="Coq refinement proof Tape.v => unbounded array (policy-parametric) + contract correspondence on Memory via verif_raw",
+   text="Theorems (all histories within the magnitude guard, every growth policy satisfying PolicyOK, rust_policy proved to satisfy it): reads return the latest write or 0, reads are pure, requested/written ranges test accessible, growth preserves contents and logical pointer, no raw index outside [0,size). Tied to src/runtime.rs on every run: random histories on Memory<u8..u64> (debug+release) must agree with the model's reads, and the growth contract is checked on the implementation through the verif_raw hook.",
+   note="Tape.v hand-written; byte-level pointer arithmetic not modelled (observed by guard pages in C06); magnitudes bounded by 2^60 / sizes < 2^62.", ref="§4 C09"),
+ "C17": dict(cat="fault_enumeration", tech="failing-allocator child processes enumerating every growth request; Coq theorem on Tape.v with allocation oracle",
+   text="Every growth request of random tape histories and of roaming programs on all backends is failed in turn (global allocator returning null); the process must end by SIGABRT/panic. Model side: C17_alloc_fail_safe/_stops proved for all histories and oracles.",
+   note="The theorem is about the Tape.v model; the implementation's abort path is observed, not proved.", ref="§4 C17"),
  "C14": dict(cat="proof", tech="Coq proof (Cell.v, Props/C14.v) + differential correspondence model<->CellType",
    text="Universal Coq theorems (all widths w>=1, all operands) for wrapping_div (least solution / none), wrapping_inv, wrapping_pow and the conversions, about a hand-written Gallina model mirroring src/lib.rs; the model is tied to the current source on every run by running the extracted model and the public CellType methods (debug and release) on the same cases, exhaustively at 8 bits.",
    note="Trusted: Coq kernel, extraction (ExtrOcamlBasic), ocaml/driver.ml, harness; Cell.v is hand-written (modelled, tied by correspondence). No axioms.", ref="§4 C14"),
